@@ -447,6 +447,20 @@ pub fn c02_stream(ctx: &mut Ctx, seq: &[u8], k: usize) {
                 );
                 return;
             }
+            // the pairs must be the same however the iterator object is consumed
+            if seq.len() <= 7 {
+                match guard(|| consumption_modes(|| KmerGenerator::new(seq, k), &a)) {
+                    Ok(None) => {}
+                    Ok(Some(m)) => {
+                        c02_violation(ctx, "consumption-mode", size, format!("{:?} k={}: a next() loop yields the pairs {:?} (each the reverse complement of its partner), but {}", show(seq), k, a, m), argv);
+                        return;
+                    }
+                    Err(p) => {
+                        c02_violation(ctx, "consumption-mode", size, format!("{:?} k={}: consuming the iterator in another way panicked: {}", show(seq), k, p), argv);
+                        return;
+                    }
+                }
+            }
             let mut ca: Vec<u64> = a.iter().map(|&(f, r)| f.min(r)).collect();
             let mut cb: Vec<u64> = b.iter().map(|&(f, r)| f.min(r)).collect();
             ca.sort();
